@@ -33,19 +33,20 @@ type Worker struct {
 }
 
 type ChCase struct {
+	Quota   int      `json:"max_ports_per_client"` // 0 = unlimited
 	TCPMux  bool     `json:"tcpmux"`
 	Workers []Worker `json:"workers"`
 }
 
 var churnOps = []string{"join-tcp", "leave-tcp", "join-http", "leave-http", "join-mux", "leave-mux", "reg-stcp", "close-stcp", "visitor", "visitor-flood", "reg-xtcp", "close-xtcp",
-	"nathole-visitor", "relogin", "user-tcp", "reg-shared", "close-shared", "pause", "relogin-twin"}
+	"nathole-visitor", "relogin", "user-tcp", "reg-shared", "close-shared", "pause", "relogin-twin", "reg-limit", "user-limit", "close-limit"}
 
 func genCh(t *rapid.T) ChCase {
-	c := ChCase{TCPMux: rapid.Bool().Draw(t, "tcpmux")}
+	c := ChCase{TCPMux: rapid.Bool().Draw(t, "tcpmux"), Quota: rapid.SampledFrom([]int{0, 0, 1, 2}).Draw(t, "quota")}
 	n := rapid.IntRange(2, 6).Draw(t, "nworkers")
 	// most cases put several workers on the same few operations: that is where the windows are
 	theme := rapid.SampledFrom([][]string{{"join-tcp", "leave-tcp", "pause"}, {"join-http", "leave-http", "pause"}, {"join-mux", "leave-mux", "pause"}, {"reg-stcp", "close-stcp", "visitor", "visitor-flood", "reg-stcp", "close-stcp", "pause"},
-		{"reg-xtcp", "close-xtcp", "nathole-visitor"}, {"reg-shared", "close-shared", "relogin", "relogin-twin"}, {"relogin-twin", "relogin-twin", "pause"}, churnOps}).Draw(t, "theme")
+		{"reg-xtcp", "close-xtcp", "nathole-visitor"}, {"reg-shared", "close-shared", "relogin", "relogin-twin"}, {"relogin-twin", "relogin-twin", "pause"}, {"reg-limit", "user-limit", "close-limit", "reg-limit", "user-limit"}, {"join-tcp", "reg-shared", "reg-limit", "leave-tcp", "close-shared"}, churnOps}).Draw(t, "theme")
 	for i := 0; i < n; i++ {
 		l := fmt.Sprintf("w%d", i)
 		w := Worker{Rounds: rapid.SampledFrom([]int{10, 40, 120, 400, 1200}).Draw(t, l+"/rounds"), Target: rapid.IntRange(0, 1).Draw(t, l+"/target")}
@@ -71,7 +72,11 @@ func runCh(c ChCase) error {
 		return fx.Inconclusive("%v", err)
 	}
 	defer blk.Release()
-	ch, err := startChild(frpsBin, serverConf(blk, c.TCPMux))
+	conf := serverConf(blk, c.TCPMux)
+	if c.Quota > 0 {
+		conf += fmt.Sprintf("maxPortsPerClient = %d\n", c.Quota)
+	}
+	ch, err := startChild(frpsBin, conf)
 	if err != nil {
 		return fx.Inconclusive("start frps: %v", err)
 	}
@@ -93,8 +98,23 @@ func runCh(c ChCase) error {
 		return fx.Inconclusive("bystander registration: %v %+v", e, r)
 	}
 
+	// the bystander is a scripted peer: it has to send its own heartbeats, a long churn on a loaded machine would
+	// otherwise run into the server's 90 s heartbeat timeout (tcpMux off) and the bystander's tunnel would vanish
+	hbStop := make(chan struct{})
+	defer close(hbStop)
+	go func() {
+		for {
+			select {
+			case <-hbStop:
+				return
+			case <-time.After(8 * time.Second):
+				_, _ = by.Ping(&msg.Ping{}, 4*time.Second)
+			}
+		}
+	}()
 	groupPort := func(tg int) int { return blk.Port(fx.SlotAllow + 2 + tg) }
 	sharedPort := func(tg int) int { return blk.Port(fx.SlotAllow + 4 + tg) }
+	limitPort := func(w int) int { return blk.Port(fx.SlotAllow + 8 + w%8) }
 	var wg, fwg sync.WaitGroup
 	stop := make(chan struct{})
 	var smu sync.Mutex
@@ -150,12 +170,13 @@ func runCh(c ChCase) error {
 								fwg.Add(1)
 								go func() {
 									defer fwg.Done()
-									for i := 0; i < 20000; i++ {
+									for i := 0; i < 2500; i++ { // bounded: each attempt costs a stream / connection and memory under -race
 										select {
 										case <-stop:
 											return
 										default:
 										}
+										time.Sleep(100 * time.Microsecond)
 										if vc, _, e := fsc.VisitorConn(fx.SignedVisitor("", name, "k"), 300*time.Millisecond); e == nil {
 											vc.Close()
 										}
@@ -216,6 +237,19 @@ func runCh(c ChCase) error {
 						}
 					case "pause":
 						time.Sleep(time.Duration(r%5) * 200 * time.Microsecond)
+					case "reg-limit":
+						// a bandwidth limit is an unvalidated string from the peer: negative, overflowing, not a number
+						lim := []string{"-1MB", "1e13MB", "InfMB", "NaNKB", "1KB", "0KB", "9223372036854775807KB"}[(r+wi)%7]
+						_, _ = sc.NewProxy(&msg.NewProxy{ProxyName: own("lim"), ProxyType: "tcp", RemotePort: limitPort(wi), BandwidthLimit: lim, BandwidthLimitMode: "server"}, short)
+					case "close-limit":
+						_ = sc.CloseProxy(own("lim"))
+					case "user-limit":
+						if cn, e := net.DialTimeout("tcp", fmt.Sprintf("127.0.0.1:%d", limitPort(wi)), 300*time.Millisecond); e == nil {
+							_ = cn.SetDeadline(time.Now().Add(300 * time.Millisecond))
+							_, _ = cn.Write([]byte("hello"))
+							_, _ = cn.Read(make([]byte, 64))
+							cn.Close()
+						}
 					case "reg-shared":
 						_, _ = sc.NewProxy(&msg.NewProxy{ProxyName: fmt.Sprintf("shared-%d", w.Target), ProxyType: "tcp", RemotePort: sharedPort(w.Target)}, short)
 					case "close-shared":
@@ -275,6 +309,9 @@ func runCh(c ChCase) error {
 	defer fresh.Close()
 	// the fresh session can use every object the churn fought over
 	for tg := 0; tg < 2; tg++ {
+		if c.Quota > 0 && tg >= c.Quota {
+			break // the fresh session has a port quota of its own
+		}
 		if r, e := fresh.NewProxy(&msg.NewProxy{ProxyName: fmt.Sprintf("fresh-g%d", tg), ProxyType: "tcp", RemotePort: groupPort(tg), Group: fmt.Sprintf("g%d", tg), GroupKey: "k"}, 5*time.Second); e != nil {
 			return fmt.Errorf("after the churn a fresh session's registration into tcp group g%d is never answered (%v)", tg, e)
 		} else if r.Error != "" && !survivorsHold(survivors) {
